@@ -1578,8 +1578,7 @@ class MergeContext:
         index_ref=self.index_ref,
       )
 
-    elif static_cache is not None:
-      assert isinstance(graphdef, NodeDef)
+    elif static_cache is not None and isinstance(graphdef, NodeDef):
       assert ctx is not None
       if (outer_index := graphdef.outer_index) is not None:
         outer_index_outer_ref = ctx.outer_index_outer_ref
